@@ -255,7 +255,7 @@ def run_check(prop, tier, seed, spec, entries, ov, solver, workdir, t0, known):
                 shards.append((pkg, b))
     results = []
     with ThreadPoolExecutor(max_workers=par) as ex:
-        futs = [ex.submit(run_gosx, i, pkg, b, overlay_map(spec, pkg), solver, seed, workdir, spec.get("src_pkgs")) for i, (pkg, b) in enumerate(shards)]
+        futs = [ex.submit(run_gosx, i, pkg, b, overlay_map(spec, pkg), solver, seed, workdir, spec.get("pkg_src_pkgs", {}).get(pkg, spec.get("src_pkgs"))) for i, (pkg, b) in enumerate(shards)]
         for f in futs:
             results.append(f.result())
     hres = []
@@ -295,7 +295,7 @@ def run_check(prop, tier, seed, spec, entries, ov, solver, workdir, t0, known):
             fp_jobs.append((h, e2))
     if fp_jobs:
         with ThreadPoolExecutor(max_workers=par) as ex:
-            futs = [ex.submit(run_gosx, 1000 + i, e2["_pkg"], [e2], overlay_map(spec, e2["_pkg"]), solver, seed, workdir, spec.get("src_pkgs")) for i, (h, e2) in enumerate(fp_jobs)]
+            futs = [ex.submit(run_gosx, 1000 + i, e2["_pkg"], [e2], overlay_map(spec, e2["_pkg"]), solver, seed, workdir, spec.get("pkg_src_pkgs", {}).get(e2["_pkg"], spec.get("src_pkgs"))) for i, (h, e2) in enumerate(fp_jobs)]
             for (h, e2), f in zip(fp_jobs, futs):
                 r = f.result()
                 got = (r.get("harnesses") or [None])[0]
